@@ -39,6 +39,9 @@ func c05IPs(admin int) map[string]string {
 }
 
 var c05Endpoints = []string{"sign", "multisign@0", "multisign@1", "multisign@2", "att", "atts@0", "atts@1", "prop",
+	// Multisign with an entry that fails before the rules are asked (its account does not exist) ahead of, or behind, the
+	// entry under test, and an ordinary entry at the other end.
+	"multisign-unknown-first@1", "multisign-unknown-last@0",
 	// The generic endpoint with the 64 bytes of (data, domain) cut elsewhere than after byte 32: the data field holds the
 	// first k bytes of the root, the domain field the rest of the root followed by the domain under test. Whatever the
 	// rules look at, a signature that is valid for (root, domain under test) must not come back.
@@ -67,13 +70,24 @@ func c05Exec(r *rig.SignerRig, domain []byte, endpoint string, ip string) (bool,
 		}
 		_ = res
 		return false, "", nil
-	case "multisign@0", "multisign@1", "multisign@2":
-		fmt.Sscanf(endpoint, "multisign@%d", &pos)
+	case "multisign@0", "multisign@1", "multisign@2", "multisign-unknown-first@1", "multisign-unknown-last@0":
+		unknown := -1
+		switch endpoint {
+		case "multisign-unknown-first@1":
+			pos, unknown = 1, 0
+		case "multisign-unknown-last@0":
+			pos, unknown = 0, 2
+		default:
+			fmt.Sscanf(endpoint, "multisign@%d", &pos)
+		}
 		names := make([]string, 3)
 		ds := make([]*rules.SignData, 3)
 		for i := range names {
 			names[i] = "Wallet 1/" + accts[i].Name()
 			ds[i] = &rules.SignData{Domain: benignGeneric, Data: data}
+		}
+		if unknown >= 0 {
+			names[unknown] = "Wallet 1/no such account"
 		}
 		ds[pos] = &rules.SignData{Domain: domain, Data: data}
 		ress, sigs := r.Signer.Multisign(r.Ctx, creds, names, nil, ds)
